@@ -31,7 +31,7 @@ fn main() {
     let idx: Vec<usize> = (0..cases.len()).collect();
     let verdicts = par_map(&idx, |&i| {
         let c = &cases[i];
-        let pl = i % PLACEMENTS.len();
+        let pl = placement_for(&c.arms, i % PLACEMENTS.len());
         let prog = match_program_at(&u, &c.ty, &some_value(&u, &c.ty), &c.arms, pl);
         let v = checker_verdict(&prog);
         let base = if i % 3 == 0 && pl != 0 {
@@ -42,7 +42,7 @@ fn main() {
         (v, prog.src, base)
     });
     for (i, (c, (v, src, base))) in cases.iter().zip(verdicts).enumerate() {
-        let pl = i % PLACEMENTS.len();
+        let pl = placement_for(&c.arms, i % PLACEMENTS.len());
         ctx.count(&format!("placement:{}", PLACEMENTS[pl]));
         if let Some(b) = &base {
             ctx.count("placement-pairs-compared");
@@ -118,6 +118,9 @@ fn main() {
         canon.sort();
         ctx.case(req, format!("w={}", canon.join(";")));
     }
+    opaque_columns(&mut ctx);
+    let_checks(&u, &mut ctx, quick);
+    let_regressions(&mut ctx);
     runtime_half(&u, &mut ctx, quick);
     ctx.finish();
 }
@@ -213,5 +216,135 @@ fn runtime_half(u: &Universe, ctx: &mut Ctx, quick: bool) {
             ));
         }
         ctx.case(j.req.clone(), imp);
+    }
+}
+
+/// Scrutinee and field types outside the model's type language (arrays, function types, generic
+/// structs / enums with function-typed fields): such a column admits only wildcards and bindings, so
+/// the verdict is known without the model — fixed programs with their expected verdict (Rust-side
+/// oracle only; see `assumptions` in props/C12.py).
+fn opaque_columns(ctx: &mut Ctx) {
+    // (program, non-exhaustive?, witnesses sorted, number of arms reported redundant)
+    let cases: Vec<(&str, bool, Vec<&str>, usize)> = vec![
+        ("let a = [1, 2]\nlet s: int = match a {\n}\nprintln(s)\n", true, vec!["_"], 0),
+        ("let a = [1, 2]\nlet s: int = match a {\n  _ -> 0\n  x -> 1\n}\nprintln(s)\n", false, vec![], 1),
+        ("let a = ([1, 2], true)\nlet s: int = match a {\n  (_, true) -> 0\n}\nprintln(s)\n", true, vec!["(_, false)"], 0),
+        ("let f = (x: int) -> x + 1\nlet s: int = match (f, 1) {\n  (g, 1) -> g(1)\n  (_, 1) -> 0\n  (g, _) -> g(2)\n}\nprintln(s)\n", false, vec![], 1),
+        ("type Hh<T> = {\n  f: T -> T\n  tag: bool\n}\nlet h = Hh(x -> x + 1, true)\nlet r: int = match h {\n  Hh(g, true) -> g(1)\n  Hh(g, false) -> g(2)\n}\nprintln(r)\n", false, vec![], 0),
+        ("type Hh<T> = {\n  f: T -> T\n  tag: bool\n}\nlet h = Hh(x -> x + 1, true)\nlet r: int = match h {\n  Hh(g, true) -> g(1)\n}\nprintln(r)\n", true, vec!["Hh(f = _, tag = false)"], 0),
+        ("type Vv<T> =\n  | Fun(T -> T)\n  | Non\nlet v: Vv<int> = Vv.Fun(x -> x * 2)\nlet s: int = match v {\n  .Fun(g) -> g(4)\n  .Non -> 0\n  .Fun(_) -> 1\n}\nprintln(s)\n", false, vec![], 1),
+        ("type Vv<T> =\n  | Fun(T -> T)\n  | Non\nlet v: Vv<int> = Vv.Fun(x -> x * 2)\nlet s: int = match v {\n  .Non -> 0\n}\nprintln(s)\n", true, vec!["Fun of _"], 0),
+        ("type Pt = {\n  x: int\n  y: int\n}\nlet p = Pt(1, 2)\nlet r: int = match p {\n}\nprintln(r)\n", true, vec!["Pt(x = _, y = _)"], 0),
+        ("let o: option<int> = .some(1)\nlet r: int = match o {\n}\nprintln(r)\n", true, vec!["none", "some of _"], 0),
+        ("let i: option<bool> = .none\nlet o: option<option<bool>> = .some(i)\nlet r: int = match o {\n  .some(.some(true)) -> 0\n  .none -> 1\n}\nprintln(r)\n", true, vec!["some of none", "some of some of false"], 0),
+    ];
+    let srcs: Vec<String> = cases.iter().map(|c| c.0.to_string()).collect();
+    let vs = par_map(&srcs, |s| checker_verdict(&MatchProgram { src: s.clone(), arm_spans: vec![] }));
+    for ((src, nonexh, wits, nred), v) in cases.iter().zip(vs) {
+        ctx.count("opaque-column-programs");
+        let mut w = v.witnesses.clone();
+        w.sort();
+        let red = v.other.iter().filter(|m| m.starts_with("redundant label")).count();
+        let stray = v.other.iter().filter(|m| !m.starts_with("redundant label")).count();
+        let ok = v.crash.is_none() && stray == 0 && v.nonexhaustive == *nonexh
+            && w == wits.iter().map(|s| s.to_string()).collect::<Vec<_>>() && red == *nred;
+        if !ok {
+            ctx.spec_fail(format!(
+                "match over a column outside the model's types: expected non-exhaustive={nonexh} missing={wits:?} redundant arms={nred}, the checker gave {} for:\n{src}",
+                verdict_key(&v)
+            ));
+        }
+    }
+}
+
+/// `let` / `var` / `for` destructuring (D96): the pattern is checked like the single arm of a match —
+/// accepted iff every value of the type matches it.  Compared with the model (`pm let`) and with
+/// brute force.
+fn let_checks(u: &Universe, ctx: &mut Ctx, quick: bool) {
+    let tys: Vec<Ty> = scrutinee_types().into_iter().chain(scrutinee_types_d46()).filter(|t| *t != Ty::Void).collect();
+    let n = if quick { 260 } else { 6000 };
+    struct LJob { req: String, src: String, spec: String, what: String }
+    let mut jobs: Vec<LJob> = vec![];
+    for i in 0..n {
+        let ty = ctx.rng.pick(&tys).clone();
+        let mut binds: Option<Vec<(String, Ty)>> = Some(vec![]);
+        let mut p = u.gen_pat(&ty, 1 + ctx.rng.below(2) as usize, &mut ctx.rng, &mut binds, false);
+        // half of the stream: patterns that are irrefutable (retry a few times)
+        let want_irrefutable = i % 2 == 0;
+        let mut tries = 0;
+        while tries < 12 && (matches!(p, Pat::Wild | Pat::Bind(_)) || irrefutable_on(u, &ty, &p) != want_irrefutable) {
+            binds = Some(vec![]);
+            p = u.gen_pat(&ty, 1 + ctx.rng.below(2) as usize, &mut ctx.rng, &mut binds, false);
+            tries += 1;
+        }
+        if matches!(p, Pat::Wild | Pat::Bind(_)) {
+            continue;
+        }
+        let irr = irrefutable_on(u, &ty, &p);
+        let v = some_value(u, &ty);
+        let form = i % LET_FORMS.len();
+        ctx.count(&format!("let-check:{}:{}", LET_FORMS[form], if irr { "irrefutable" } else { "refutable" }));
+        if has_or(&p) { ctx.count("let-check:with-or-pattern"); }
+        jobs.push(LJob {
+            req: format!("pm let {} {} {} #{}", u.env_req(), u.ty_req(&ty), u.pat_req(&p), LET_FORMS[form]),
+            src: let_program(u, &ty, &p, &v, form, &[]),
+            spec: if irr { "let=accepted".into() } else { "let=rejected".into() },
+            what: format!("{} ({}) on {}", LET_FORMS[form], u.pat_src(&p), u.ty_src(&ty)),
+        });
+    }
+    let results = par_map(&jobs, |j| {
+        let src = j.src.clone();
+        std::panic::catch_unwind(std::panic::AssertUnwindSafe(|| {
+            abra_core::check_lsp("main.abra", provider(&src, &[])).errors().iter().map(|e| e.message.clone()).collect::<Vec<_>>()
+        }))
+    });
+    for (j, r) in jobs.iter().zip(results) {
+        let imp = match &r {
+            Ok(errs) if errs.is_empty() => "let=accepted".to_string(),
+            Ok(_) => "let=rejected".to_string(),
+            Err(_) => "crash".to_string(),
+        };
+        if imp != j.spec {
+            ctx.spec_fail(format!(
+                "{}: the checker says `{imp}`{}, by brute force over all values it must be `{}`",
+                j.what,
+                match &r { Ok(e) if !e.is_empty() => format!(" ({})", e[0]), _ => String::new() },
+                j.spec
+            ));
+        }
+        ctx.case(j.req.clone(), imp);
+    }
+}
+
+/// Hard regression checks for D96 (e292b84: refutable patterns in let / var / for were never checked)
+/// and D97 (f04535c: an or-pattern in an un-annotated let was not unified with its alternatives).
+fn let_regressions(ctx: &mut Ctx) {
+    let cases: Vec<(&str, &str, bool)> = vec![
+        ("D96", "let (1, y) = (5, 3)\nprintln(y)\n", false),
+        ("D96", "for (true, z) in [(false, 7)] {\n  println(z)\n}\n", false),
+        ("D96", "type Ee = Aa(string) | Bb\nlet (Ee.Aa(s), w) = (Ee.Bb, 3)\nprintln(w)\n", false),
+        ("D96", "var (0 | 1, y) = (5, 3)\nprintln(y)\n", false),
+        ("D96", "type Wrap = Wr(int)\nlet (Wrap.Wr(a), (b, _)) = (Wrap.Wr(3), (1, true))\nprintln(a + b)\n", true),
+        ("D96", "let (true | false, y) = (false, 3)\nprintln(y)\n", true),
+        ("D97", "let ((true | false), y) = (\"s\", 3)\nprintln(y)\n", false),
+        ("D97", "let ((nil | nil), z) = (7, 3)\nprintln(z)\n", false),
+        ("D97", "type Pt = {\n  x: int\n}\nlet ((Pt(a) | Pt(a)), y) = (\"str\", 3)\nprintln(a)\n", false),
+        ("D97", "let (x | x, y) = (1, 2)\nprintln(x + y)\n", true),
+    ];
+    let srcs: Vec<String> = cases.iter().map(|c| c.1.to_string()).collect();
+    let rs = par_map(&srcs, |src| {
+        std::panic::catch_unwind(std::panic::AssertUnwindSafe(|| {
+            abra_core::check_lsp("main.abra", provider(src, &[])).errors().iter().map(|e| e.message.clone()).collect::<Vec<_>>()
+        }))
+    });
+    for ((id, src, accept), r) in cases.iter().zip(rs) {
+        let ok = match &r { Ok(e) => e.is_empty() == *accept, Err(_) => false };
+        ctx.count(&format!("regression:{id}:{}", if ok { "passes" } else { "FAILS" }));
+        if !ok {
+            ctx.spec_fail(format!(
+                "{id} regression: the program below must be {}, the checker gave {:?}:\n{src}",
+                if *accept { "accepted" } else { "rejected" }, r
+            ));
+        }
     }
 }
